@@ -61,12 +61,37 @@ def rule_r2(chk, p, t):
     fac = p.func("resonaate.dynamics.dynamicsFactory")
 
     def one():
-        ctor = [c for c in walk_no_nested(fac.node) if isinstance(c, ast.Call) and call_name(c) == "Terrestrial"]
+        import copy
+
+        terr = p.cls("resonaate.dynamics.terrestrial.Terrestrial")
+        ctor = [c for c in walk_no_nested(fac.node) if isinstance(c, ast.Call) and (call_name(c) == "Terrestrial" or (isinstance(c.func, ast.Attribute) and unparse(c.func.value) == "Terrestrial"))]
         require(len(ctor) == 1, "dynamicsFactory does not construct Terrestrial exactly once", fac.node)
         c = ctor[0]
+        if isinstance(c.func, ast.Attribute):
+            # an alternative constructor: inline `return cls(a, b)` with the call's arguments
+            alt = terr.methods.get(c.func.attr)
+            require(alt is not None and alt.kind == "classmethod", f"Terrestrial.{c.func.attr} is not a classmethod of Terrestrial", c)
+            rets = [n for n in walk_no_nested(alt.node) if isinstance(n, ast.Return) and n.value is not None]
+            require(len(rets) == 1 and isinstance(rets[0].value, ast.Call) and unparse(rets[0].value.func) in ("cls", "Terrestrial"), f"Terrestrial.{c.func.attr} does not return cls(...) once", alt.node)
+            from rsa.terms import inline_locals
+
+            inner = inline_locals(alt, rets[0].value)
+            binding = dict(zip(alt.params[1:], c.args))
+            binding.update({k.arg: k.value for k in c.keywords if k.arg})
+
+            class Sub(ast.NodeTransformer):
+                def visit_Name(self, n):
+                    return copy.deepcopy(binding[n.id]) if n.id in binding else n
+
+            c = Sub().visit(copy.deepcopy(inner))
         require(len(c.args) == 2, "Terrestrial is not constructed with (jd_start, x_ecef)", c)
         jd, x = c.args
         clockp = "clock"
+
+        def instant(e):
+            # the clock's start described either way is one instant (see the clock instance below)
+            txt = unparse(e)
+            return f"{clockp}.datetime_start" if txt == f"julianDateToDatetime({clockp}.julian_date_start)" else txt
         if unparse(jd) == f"{clockp}.julian_date_start":
             r.ok(fac.qualname + ":jd", "jd_start = clock.julian_date_start", fac.loc(c))
         else:
@@ -75,11 +100,11 @@ def rule_r2(chk, p, t):
             r.violation(fac.qualname, f"capture:{unparse(x)}", f"the Earth-fixed state is `{unparse(x)}`, expected eci2ecef(state.toECI(t0), t0)", fac.loc(c))
             return
         st, inst = x.args
-        if isinstance(st, ast.Call) and call_name(st) == "toECI" and len(st.args) == 1 and unparse(st.args[0]) == unparse(inst):
+        if isinstance(st, ast.Call) and call_name(st) == "toECI" and len(st.args) == 1 and instant(st.args[0]) == instant(inst):
             r.ok(fac.qualname + ":same-instant", f"toECI and eci2ecef both at {unparse(inst)}", fac.loc(c))
         else:
             r.violation(fac.qualname, f"two-instants:{unparse(st)}|{unparse(inst)}", f"the state is made inertial at `{unparse(st.args[0]) if isinstance(st, ast.Call) and st.args else '?'}` but made Earth-fixed at `{unparse(inst)}`", fac.loc(c))
-        if unparse(inst) == f"{clockp}.datetime_start":
+        if instant(inst) == f"{clockp}.datetime_start":
             r.ok(fac.qualname + ":instant", "instant = clock.datetime_start", fac.loc(c))
         else:
             r.violation(fac.qualname, f"instant:{unparse(inst)}", f"the capture instant is `{unparse(inst)}`, not clock.datetime_start", fac.loc(c))
@@ -198,16 +223,25 @@ def rule_r4(chk, p, t):
     r.guard(fn.qualname, one)
 
 
+def rule_r5(chk, p, t):
+    # the start-date inversion of the ground dynamics goes through getCalendarDate: a wrong calendar date for
+    # some start instants displaces the site for the whole run (shared instance of C05.R5)
+    from rules.C05 import rule_r5 as shared
+
+    shared(chk, p, t, rid="C11.R5")
+
+
 def run(chk, p, t):
     chk.explanation = (
         "Static decision of structural necessary conditions of C11: (R1) the ground dynamics' start datetime is the "
         "scenario start instant exactly (conversion must round - shared instance of C05.R1); (R2) the configured state "
         "is captured in the Earth-fixed frame at one instant, the clock's start; (R3) Terrestrial.propagate depends only "
         "on the captured Earth-fixed state and start + elapsed seconds; (R4) geodetic configuration slots and degree "
-        "conversion. NOT decided: metre-level accuracy of the IAU-76 reduction, inertial velocity values."
+        "conversion; (R5) the calendar inversion used for the start date is the cited algorithm with every quantity "
+        "re-derived after the year correction (shared instance of C05.R5). NOT decided: metre-level accuracy of the IAU-76 reduction, inertial velocity values."
     )
     chk.assumptions += ["timedelta(seconds=x) interprets x as seconds", "eci2ecef/ecef2eci are mutual inverses at equal instants (C04)"]
-    for fn in (rule_r1, rule_r2, rule_r3, rule_r4):
+    for fn in (rule_r1, rule_r2, rule_r3, rule_r4, rule_r5):
         rid = "C11.R" + fn.__name__[-1]
         if not chk.wants(rid):
             continue
